@@ -95,6 +95,7 @@ static void op_ci_decint(FILE *out, const char *id, char **a, int n) { ci_dec_co
 #include "ops_range.h"
 #include "ops_hash.h"
 #include "ops_file.h"
+#include "ops_write.h"
 
 /* ------------------------------------------------------------------ dispatch */
 
@@ -114,6 +115,7 @@ static struct { const char *name; opfn fn; int forked; } OPS[] = {
     {"READSEQ", op_readseq, 1},
     {"SCAN", op_scan, 1},
     {"CHUNKSEQ", op_chunkseq, 1},
+    {"WRITE", op_write, 1},
     {NULL, NULL, 0}
 };
 
